@@ -252,7 +252,8 @@ func main() {
 			b, _ := json.MarshalIndent(History{Seed: 1000 + int64(i), Modules: []string{"eth", "bsc"}, Ops: sc}, "", " ")
 			name := []string{"A-C13-1-withdraw-after-maturity", "B-C13-1-withdraw-before-maturity", "C-C13-2-add-delegate-after-removal",
 				"D-validator-slashed-then-redelegate-removal-withdraw", "E-two-live-batches-older-executed",
-				"F-export-import-with-offline-oracles", "H-edit-bridger-to-offline-oracles-bridger", "I-power-cap-boundary", "J-C13-3-penalty-exceeds-what-staking-left", "K-jail-redelegate-past-infraction-slash"}[i]
+				"F-export-import-with-offline-oracles", "H-edit-bridger-to-offline-oracles-bridger", "I-power-cap-boundary", "J-C13-3-penalty-exceeds-what-staking-left", "K-jail-redelegate-past-infraction-slash",
+				"L-two-live-oracle-sets-newer-observed"}[i]
 			lib.Must(os.WriteFile(filepath.Join(corpusDir, name+".json"), b, 0o644))
 		}
 	}
@@ -485,5 +486,26 @@ func scripted() [][]Op {
 	k = append(k, confirmAll(3, 0)...)
 	k = append(k, Op{K: "slashpast", V: 0, Amt: "50000000000000000", N: 2}, Op{K: "block"}, Op{K: "unjail", V: 1}, Op{K: "block"},
 		Op{K: "block", Dt: mature}, Op{K: "block"}, Op{K: "unbond", M: 0, A: 4}, Op{K: "unbond", M: 0, A: 0}, Op{K: "block"})
-	return [][]Op{a, b, c, d, e, f, h, ib, j, k}
+	// L: two oracle sets alive at once, the newer one adopted by the external chain.  Signed window 4.  Oracle set 1 is
+	//    confirmed by everybody; inside its window oracle 0 raises its stake by 80000 FX (power 70000 -> 150000): the end
+	//    blocker requests oracle set 2; everybody confirms it too; it is relayed and observed through the real claim path
+	//    (LastObservedOracleSet.Nonce = 2 > 1); the end blocker then runs block by block over height(1)+window and
+	//    height(1)+window+1 (slashing looks at set 1, then set 1 is pruned) and on over the window of set 2: every oracle
+	//    confirmed in time, nobody may be penalised; a second round (oracle 1 raises its stake, set 3, observed) follows
+	l := setup()
+	l[nOracles] = Op{K: "params", M: 0, P: []string{fx(10000), "10", "800000000000000000", "4"}}
+	l = append(l, confirmAll(1, -1)...)
+	l = append(l, Op{K: "add", M: 0, A: 0, Amt: fx(80000)}, Op{K: "block"})
+	l = append(l, confirmAll(2, -1)...)
+	l = append(l, Op{K: "observeset", M: 0, N: 2})
+	for i := 0; i < 4; i++ {
+		l = append(l, Op{K: "block"})
+	}
+	l = append(l, Op{K: "add", M: 0, A: 1, Amt: fx(90000)}, Op{K: "block"})
+	l = append(l, confirmAll(3, -1)...)
+	l = append(l, Op{K: "block"}, Op{K: "observeset", M: 0, N: 3})
+	for i := 0; i < 7; i++ {
+		l = append(l, Op{K: "block"})
+	}
+	return [][]Op{a, b, c, d, e, f, h, ib, j, k, l}
 }
